@@ -10,6 +10,7 @@
 #include "C18_iface.hpp"
 #include <pthread.h>
 #include <sched.h>
+#include <sys/wait.h>
 
 namespace mc {
 long g_live_allocs = 0;
@@ -231,12 +232,44 @@ static int run_config(const Cfg& c, bool report) {
     return findings;
 }
 
+// The threads of a racy tree may dead-lock or spin for ever: the configuration runs in a forked child (fork happens while the
+// process is still single-threaded) and the parent is the watchdog.
 static void job(int j) {
     g_scale = A.thorough() ? 1 : 0;
     std::vector<Cfg> cs = configs(A.thorough());
     if (j < 0 || j >= (int)cs.size()) return;
-    run_config(cs[j], true);
-    if (j == 0) R.sample("{\"stage\":3,\"config\":" + jstr(cfg_str(cs[j], g_scale)) + ",\"tsan_reports\":" + str(g_total) + "}");
+    int limit = A.thorough() ? 420 : 150;
+    if (A.deadline > 0 && A.deadline < limit) limit = (int)A.deadline;
+    fflush(stdout); fflush(stderr);
+    pid_t pid = fork();
+    if (pid == 0) {
+        run_config(cs[j], true);
+        if (j == 0) R.sample("{\"stage\":3,\"config\":" + jstr(cfg_str(cs[j], g_scale)) + ",\"tsan_reports\":" + str(g_total) + "}");
+        if (!A.out.empty()) R.write(A.out); else R.write("/dev/stdout");
+        _exit(0);
+    }
+    if (pid > 0) {
+        double t0 = now();
+        int st = 0;
+        for (;;) {
+            pid_t r = waitpid(pid, &st, WNOHANG);
+            if (r == pid) {
+                if (WIFEXITED(st) && WEXITSTATUS(st) == 0) _exit(0);        // the child wrote the report
+                R.violation("crash:free-running", "the process running the threads died (status " + str(st) + ")", cfg_str(cs[j], g_scale));
+                return;
+            }
+            if (now() - t0 > limit) {
+                kill(pid, SIGKILL);
+                waitpid(pid, &st, 0);
+                R.violation("hang:free-running", "threads did not finish within " + str(limit) + " s (a sequential run takes well under a second)",
+                            cfg_str(cs[j], g_scale));
+                R.flags["exhaustive"] = false;
+                return;
+            }
+            usleep(20000);
+        }
+    }
+    run_config(cs[j], true);      // fork failed: run in place
 }
 
 static int replay(const std::string& kase) {
